@@ -69,7 +69,9 @@ def rearm_after_interruption(chk: Check, rule: str) -> None:
                     continue
                 n_deref += 1
                 nodes = ff.cfg.nodes_containing(deref)
-                ok = bool(nodes) and all(not_none(ff.at(m), LOC) for m in nodes)
+                # facts when the use itself is evaluated (``x is not None and x.done()``: the right operand knows the left one held)
+                encl = [c_ for c_ in ast.walk(f.node) if isinstance(c_, ast.Call) and c_.func is deref]
+                ok = bool(nodes) and all(not_none(ff.at_call(m, encl[0]) if encl else ff.at(m), LOC) for m in nodes)
                 chk.ob(rule, f, ok, f'the waiting future may be absent ({", ".join(chk.units["waiting_future_nullable"])} store None) and this use does not know it exists: '
                        'it raises AttributeError / TypeError instead of waking or interrupting the step', node=deref, kind='use-of-absent-future')
     chk.units['waiting_future_direct_uses'] = n_deref
